@@ -3,7 +3,7 @@
 # A VIOLATION here is a false alarm of the machinery.
 for patch in "$@"; do
   git -C ${VERIF_REPO:-/repo} apply $patch || { echo "$patch: does not apply"; continue; }
-  res=$(printf "%s\n" C01 C02 C03 C04 C05 C06 C07 C08 C09 C10 C11 C13 C14 C15 C16 C17 C18 C19 | xargs -P 9 -I{} sh -c 'VERIF_EVIDENCE_DIR=${VERIF_EVIDENCE_DIR:-/tmp/seed_evidence} /verif/check {} > ${VERIF_EVIDENCE_DIR:-/tmp/seed_evidence}/{}.out 2>&1; echo "{}:$?"' | sort | tr '\n' ' ')
+  res=$(printf "%s\n" C01 C02 C03 C04 C05 C06 C07 C08 C09 C10 C11 C13 C14 C15 C16 C17 C18 C19 | xargs -P 9 -I{} sh -c 'VERIF_EVIDENCE_DIR=${VERIF_EVIDENCE_DIR:-/tmp/seed_evidence} ${VERIF_HOME:-/verif}/check {} > ${VERIF_EVIDENCE_DIR:-/tmp/seed_evidence}/{}.out 2>&1; echo "{}:$?"' | sort | tr '\n' ' ')
   git -C ${VERIF_REPO:-/repo} checkout -- .
   viol=$(echo "$res" | tr ' ' '\n' | grep ":1" | tr '\n' ' ')
   und=$(echo "$res" | tr ' ' '\n' | grep ":2" | tr '\n' ' ')
